@@ -16,6 +16,11 @@ import (
 	"verif/pgwire"
 )
 
+// realNow returns the real wall clock in nanoseconds even inside a synctest
+// bubble (where time.Now is the fake clock): it reads the monotonic runtime
+// clock through a timer-free path.
+func realNow() int64 { return realClock() }
+
 // CaseRef identifies a case of a batch so that it can be regenerated: either
 // the i-th fixed (enumerated) case or the i-th seeded one.
 type CaseRef struct {
@@ -209,7 +214,9 @@ func WorkerMain(t *testing.T, p *Prop, seed uint64, tier string, shard, shards i
 		return 2
 	}
 	defer cur.Close()
+	var lastCase atomic.Int64
 	mark := func(ref CaseRef) {
+		lastCase.Store(realNow())
 		var b [9]byte
 		if ref.Fixed {
 			b[0] = 1
@@ -223,6 +230,20 @@ func WorkerMain(t *testing.T, p *Prop, seed uint64, tier string, shard, shards i
 	}
 	rep := &WorkerReport{RaceBuild: RaceEnabled}
 	x := NewExec()
+	// real-time watchdog (armed outside any bubble): a single case that makes no
+	// progress for 30 s ends the worker with exit status 3; the orchestrator
+	// attributes the hang to the recorded case and confirms it alone
+	lastCase.Store(realNow())
+	go func() {
+		for {
+			time.Sleep(2 * time.Second)
+			if time.Now().UnixNano()-lastCase.Load() > int64(30*time.Second) {
+				fmt.Fprintln(os.Stderr, "WATCHDOG: the current case has made no progress for 30 s")
+				w.Flush()
+				os.Exit(3)
+			}
+		}
+	}()
 	digests := map[uint64]struct{}{}
 	start := time.Now()
 	findings := 0
@@ -360,6 +381,16 @@ func ReplayMain(t *testing.T, path string) int {
 		fmt.Fprintln(os.Stderr, "HARNESS-ERROR:", err)
 		return 2
 	}
+	start := realNow()
+	go func() {
+		for {
+			time.Sleep(2 * time.Second)
+			if time.Now().UnixNano()-start > int64(30*time.Second) {
+				fmt.Fprintln(os.Stderr, "WATCHDOG: the case has made no progress for 30 s")
+				os.Exit(3)
+			}
+		}
+	}()
 	var viol []Violation
 	x := NewExec()
 	runOnce := true
